@@ -47,8 +47,14 @@ TYPES = [
     ("&'static str", "&str"),
     ("[u8; 4]", "[u8; 4]"),
     ("LOCAL", None),        # a struct defined next to the function, named by its bare identifier
+    # type expressions that do not begin with a path
+    ("&'static String", "&alloc::string::String"),
+    ("(String, i32)", "(alloc::string::String, i32)"),
+    ("[String; 2]", "[alloc::string::String; 2]"),
+    ("fn(String) -> u8", "fn(alloc::string::String) -> u8"),
 ]
-TYPE_LISTS = [[0, 1], [2, 0], [1], [3, 2, 0], [], [4, 5], [6, 7, 0], [10, 0], [8, 9, 5], [10], [3, 10, 4, 1]]
+TYPE_LISTS = [[0, 1], [2, 0], [1], [3, 2, 0], [], [4, 5], [6, 7, 0], [10, 0], [8, 9, 5], [10], [3, 10, 4, 1],
+              [7, 11], [12, 13, 0], [14, 7], [11, 12, 13, 14]]
 CONST_LISTS = [[3, 1, 2], [10, 9, 100], [-1, 5], [7], [], [0, 255], [-128, 127, 0], [2, 20, 3, 1], [42, 4]]
 COST = [100, 500, 1000, 3000]
 
@@ -983,6 +989,7 @@ pub fn run_main(start: u64, read_step: u64, precision: u128) {
             precision_override: Some(precision),
             overheads: [0; 4],
             quantum: 0,
+            overhead_measure_cost: 0,
         }),
         step_bound: 5_000_000,
         wall_timeout: Duration::from_secs(60),
